@@ -166,9 +166,11 @@ fn fam_reverse(r: &mut Rng) -> String {
     plug(r, &stmt, None)
 }
 
-const KEYS: [&str; 22] = [
+const KEYS: [&str; 30] = [
     "a =", "b =", "[\"a\"] =", "['a'] =", "[ [[a]] ] =", "[\"\\97\"] =", "[\"\\n\"] =", "[ [[\\n]] ] =", "['\\n'] =", "[\"b\"] =",
-    "[1] =", "[1.0] =", "[0x1] =", "[2] =", "[1e0] =", "[x] =", "[\"\\65\"] =", "[ [[\\65]] ] =", "[\"A\"] =", "[f()] =", "[02] =", "[ [==[a]==] ] =",
+    "[1] =", "[1.0] =", "[0x1] =", "[2] =", "[1e0] =", "[x] =",
+    // different numbers that coincide in single precision, or overflow it
+    "[16777216] =", "[16777217] =", "[0.1] =", "[0.10000000001] =", "[1e39] =", "[1e40] =", "[1234567890] =", "[1234567891] =", "[\"\\65\"] =", "[ [[\\65]] ] =", "[\"A\"] =", "[f()] =", "[02] =", "[ [==[a]==] ] =",
 ];
 
 fn table(r: &mut Rng, depth: usize) -> String {
